@@ -47,9 +47,9 @@ pub fn run(case: &Value, ctx: &Ctx) -> Outcome {
     let vcf = gen::vcf_text(&cols, &recs, false);
     let arg = cols.iter().zip(&labels).map(|(c, l)| format!("{c}={l}")).collect::<Vec<_>>().join(",");
     let shape = proj.iter().map(|t| t.to_string()).collect::<Vec<_>>().join(",");
-    let mut runs: Vec<Vec<String>> = vec![vec!["create".into(), "-s".into(), arg.clone(), "--project-shape".into(), shape, "--precision".into(), "9".into()]];
+    let mut runs: Vec<Vec<String>> = vec![vec!["create".into(), "-s".into(), arg.clone(), "--project-shape".into(), shape, "--precision".into(), "40".into()]];
     if proj.iter().all(|t| t % 2 == 1) {
-        runs.push(vec!["create".into(), "-s".into(), arg, "-p".into(), proj.iter().map(|t| ((t - 1) / 2).to_string()).collect::<Vec<_>>().join(","), "--precision".into(), "9".into(), "-t".into(), "2".into()]);
+        runs.push(vec!["create".into(), "-s".into(), arg, "-p".into(), proj.iter().map(|t| ((t - 1) / 2).to_string()).collect::<Vec<_>>().join(","), "--precision".into(), "40".into(), "-t".into(), "2".into()]);
     }
     for args in runs {
         let a: Vec<&str> = args.iter().map(|s| s.as_str()).collect();
@@ -58,7 +58,7 @@ pub fn run(case: &Value, ctx: &Ctx) -> Outcome {
         match (r.ok(), cli::parse_text(&r.stdout)) {
             (true, Ok((gs, gv))) => {
                 out.check(gs == proj, || "createlarge/shape".into(), || json!({"got": gs, "want": proj}));
-                let bad: Vec<(usize, f64, f64)> = gv.iter().zip(&want).enumerate().filter(|(_, (g, w))| !((*g - *w).abs() <= 0.5e-9 + 1e-9 * w.abs().max(1.0))).map(|(i, (g, w))| (i, *g, *w)).take(5).collect();
+                let bad: Vec<(usize, f64, f64)> = gv.iter().zip(&want).enumerate().filter(|(_, (g, w))| !((*g - *w).abs() <= 1e-9 * w.abs() + 1e-39)).map(|(i, (g, w))| (i, *g, *w)).take(5).collect();
                 out.check(gv.len() == want.len() && bad.is_empty(), || "createlarge/values".into(), || json!({"args": short, "first_bad_cells": bad, "mass": gv.iter().sum::<f64>(), "mass_expected": want.iter().sum::<f64>()}));
                 out.check(gv.iter().all(|v| v.is_finite()), || "createlarge/non-finite".into(), || json!({"args": short}));
                 let skipped = case["skipped"].as_u64().unwrap();
